@@ -75,6 +75,9 @@ CORE: list[tuple[str, list]] = [
     ('override_in_rule', [('start', S(C('r'), OPT(C('r')))), ('r', S(T('('), OV(P('a+')), T(')')))]),
     ('negative_then_closure', [('start', S(REP(S(NOT(T('b')), DOT)), OPT(T('b'))))]),
     ('positive_join_sep_seq', [('start', JOIN(GRP(S(T(','), OPT(T(',')))), T('a'), True))]),
+    # joins/gathers whose element can match empty: an iteration that consumed a separator made progress
+    ('join_nullable_elem', [('start', S(JOIN(T(','), REP(T('a')), True), EOF_))]),
+    ('gather_nullable_elem', [('start', S(GATHER(T(','), REP(T('a'))), OPT(T('b'))))]),
 ]
 
 START_VARIANTS = [
